@@ -170,6 +170,15 @@ func GenSegs(r *core.RNG, n int) []int {
 	if r.Chance(1, 4) {
 		segs = append([]int{0}, segs...)
 	}
+	if r.Chance(1, 5) {
+		// io.Copy feeding: everything, or the tail after the first write
+		k := -r.Pick(1<<20, 65536, 32768, 4096, 100, 7)
+		if len(segs) > 1 && r.Bool() {
+			segs = []int{segs[0], k}
+		} else {
+			segs = []int{k}
+		}
+	}
 	return segs
 }
 
@@ -229,6 +238,23 @@ func EncryptWith(recipients []age.Recipient, spec FileSpec, segs []int, dst io.W
 	failed := false
 	off := 0
 	for _, s := range segs {
+		if s < 0 {
+			// the caller feeds the rest with io.Copy from a plain reader (what cmd/age does):
+			// uses the writer's ReadFrom if it has one, else Write calls of Copy's buffer size
+			n64, err := io.Copy(w, &PlainReader{Data: p[off:], Max: -s})
+			res.WriteNs = append(res.WriteNs, int(n64))
+			res.WriteErrs = append(res.WriteErrs, err)
+			if err != nil {
+				failed = true
+				break
+			}
+			off += int(n64)
+			res.Accepted = off
+			if afterCall != nil {
+				afterCall(off)
+			}
+			break
+		}
 		if off+s > len(p) {
 			s = len(p) - off
 		}
@@ -273,6 +299,26 @@ func EncryptWith(recipients []age.Recipient, spec FileSpec, segs []int, dst io.W
 		}
 	}
 	return res
+}
+
+// PlainReader delivers Data in pieces of at most Max bytes and implements
+// nothing but Read (no WriteTo), like a file or a pipe.
+type PlainReader struct {
+	Data []byte
+	Max  int
+}
+
+func (r *PlainReader) Read(p []byte) (int, error) {
+	if len(r.Data) == 0 {
+		return 0, io.EOF
+	}
+	n := len(p)
+	if r.Max > 0 && n > r.Max {
+		n = r.Max
+	}
+	n = copy(p[:n], r.Data)
+	r.Data = r.Data[n:]
+	return n, nil
 }
 
 // MustEncrypt produces the file fault-free and returns the image and write list.
